@@ -1,3 +1,17 @@
 """Assumed contracts on the standard library (listed in every evidence file).
-Filled by the contract modules that need them."""
-MODELS = {}
+
+datetime.date / datetime.datetime objects are records of their documented
+integer fields; timetuple() returns (year, month, day, hour, minute, second,
+weekday, yearday, dst) with whole seconds (struct_time drops microseconds)."""
+
+
+def _timetuple(it, obj, *a):
+    f = obj.fields
+    return (f["year"], f["month"], f["day"], f.get("hour", 0), f.get("minute", 0), f.get("second", 0),
+            it.fresh("tm_wday", "int"), it.fresh("tm_yday", "int"), -1)
+
+
+MODELS = {
+    "datetime.datetime.timetuple": _timetuple,
+    "datetime.date.timetuple": _timetuple,
+}
